@@ -50,6 +50,47 @@ func runC07(p *an.Prog, r *an.Run, tier string) {
 		}
 	}
 	r.Floor("settlers", len(settlers), 1)
+	// the functions bound to the Settle field must report a failed payout
+	nBound := 0
+	for _, fn := range p.Repo {
+		an.AllInstrs(fn, func(in ssa.Instruction) {
+			var vals []ssa.Value
+			switch x := in.(type) {
+			case *ssa.Store:
+				if fv := an.FieldOf(x.Addr); fv != nil && fv.Name() == "Settle" {
+					vals = append(vals, x.Val)
+				}
+			}
+			for _, v := range vals {
+				d := p.Derives(0, v)
+				for _, n := range d.Nodes {
+					mc, ok := n.(*ssa.MakeClosure)
+					if !ok {
+						continue
+					}
+					bf, ok := mc.Fn.(*ssa.Function)
+					if !ok || bf.Object() == nil {
+						continue
+					}
+					h := p.SSA.FuncValue(bf.Object().(*types.Func))
+					if h == nil || !p.InRepo(h) {
+						continue
+					}
+					nBound++
+					r.Analysed(an.FuncName(h))
+					var bad []string
+					for _, c := range an.Calls(h, false) {
+						if f := an.CallObj(c); f != nil && !strings.HasPrefix(an.ObjPkgPath(f), an.Module) {
+							bad = append(bad, failPropagates(p, h, c)...)
+						}
+					}
+					// and success must only be reported after the write call succeeded
+					r.Check(len(bad) == 0, "settle-handler", an.FuncName(h), h.Pos(), "the settlement handler reports every failed contract write", "%s", strings.Join(bad, "; "))
+				}
+			}
+		})
+	}
+	r.Floor("settle-handlers", nBound, 1)
 	for _, fn := range settlers {
 		name := an.FuncName(fn)
 		r.Analysed(name)
@@ -245,12 +286,19 @@ func runC07(p *an.Prog, r *an.Run, tier string) {
 					al, _ := root.(*ssa.Alloc)
 					fromGet := false
 					if al != nil && get != nil {
+						nStores := 0
 						for _, ref := range *al.Referrers() {
 							if st, ok := ref.(*ssa.Store); ok && st.Addr == ssa.Value(al) {
+								nStores++
 								if ex, ok := st.Val.(*ssa.Extract); ok && ex.Tuple == ssa.Value(get) {
 									fromGet = true
 								}
 							}
+						}
+						// the record must be the single snapshot taken before settlement: a later re-read
+						// would also wipe credit earned while the settlement was in flight, without paying it
+						if nStores != 1 || !an.Dominates(get, settle.(ssa.Instruction)) {
+							fromGet = false
 						}
 					}
 					if !fromGet || path != ".Credit" {
@@ -313,7 +361,8 @@ func runC07(p *an.Prog, r *an.Run, tier string) {
 				bad = append(bad, "unexpected store mutation "+an.ObjString(an.CallObj(c))+" in the withdrawal path")
 			}
 		}
-		r.Check(len(bad) == 0, "fail-clean", name, settle.Pos(), "no ledger write unless settlement succeeded", "%s", strings.Join(bad, "; "))
+		bad = append(bad, failPropagates(p, fn, settle)...)
+		r.Check(len(bad) == 0, "fail-clean", name, settle.Pos(), "no ledger write unless settlement succeeded; a failed settlement is reported", "%s", strings.Join(bad, "; "))
 
 		// ---- exclusive
 		bad = nil
@@ -377,6 +426,79 @@ func runC07(p *an.Prog, r *an.Run, tier string) {
 		bad = dedup(bad)
 		r.Check(len(bad) == 0, "exclusive", name, settle.Pos(), "read-balance … settle … consume inside one lock region "+an.HeldString(common), "%s", strings.Join(bad, "; "))
 	}
+}
+
+// failPropagates: every return reachable from a failure edge of call c (without
+// re-executing c) must yield a non-nil error.
+func failPropagates(p *an.Prog, fn *ssa.Function, c ssa.CallInstruction) []string {
+	var bad []string
+	u := an.ErrEdges(c)
+	if !u.HasErr {
+		return nil
+	}
+	if u.Dropped {
+		return []string{"the error of " + callName(c) + " at " + p.Pos(c.Pos()) + " is dropped"}
+	}
+	if len(u.Fail) == 0 && u.Returned {
+		return nil
+	}
+	evs := an.ErrValues(c)
+	isErrVal := func(v ssa.Value) bool {
+		for _, e := range evs {
+			if e == v {
+				return true
+			}
+		}
+		return false
+	}
+	for _, e := range u.Fail {
+		seen := map[*ssa.BasicBlock]bool{}
+		work := []*ssa.BasicBlock{e.To}
+		for len(work) > 0 {
+			b := work[len(work)-1]
+			work = work[:len(work)-1]
+			if seen[b] {
+				continue
+			}
+			seen[b] = true
+			stop := false
+			for _, in := range b.Instrs {
+				if in == c.(ssa.Instruction) {
+					stop = true
+					break
+				}
+				if ret, ok := in.(*ssa.Return); ok {
+					rr := an.RetResults(ret)
+					if len(rr) == 0 {
+						continue
+					}
+					res := rr[len(rr)-1]
+					if !an.IsErrorType(res.Type()) {
+						continue
+					}
+					if !(definitelyNonNilError(res) || isErrVal(res) || returnOnFailEdge(ret, res)) {
+						bad = append(bad, "after "+callName(c)+" failed (at "+p.Pos(c.Pos())+") the return at "+p.Pos(ret.Pos())+" can report success")
+					}
+				}
+			}
+			if stop {
+				continue
+			}
+			for i, s := range b.Succs {
+				if !an.DeadEdge(b, i) {
+					work = append(work, s)
+				}
+			}
+		}
+	}
+	return dedup(bad)
+}
+
+func callName(c ssa.CallInstruction) string {
+	if f := an.CallObj(c); f != nil {
+		return an.ObjString(f)
+	}
+	return "the call through " + c.Common().Value.Name()
 }
 
 func dedup(l []string) []string {
